@@ -723,40 +723,82 @@ func isLenOfField(v ssa.Value, names ...string) bool {
 // where the comparison is normalised to the taken polarity (a false edge of
 // x < y is presented as x >= y).
 func dominatedByCmp(b *ssa.BasicBlock, pred func(op token.Token, x, y ssa.Value) bool) bool {
+	return dominatedByCmpDepth(b, pred, 0)
+}
+
+// validationHelperOf: cond/val says "the error returned by a call to a
+// same-package function with a body is nil"; returns that call.
+func validationHelperOf(cond ssa.Value, val bool) *ssa.Call {
+	c, v := cond, val
+	for {
+		if u, ok := c.(*ssa.UnOp); ok && u.Op == token.NOT {
+			c, v = u.X, !v
+			continue
+		}
+		break
+	}
+	x, nilWhenTrue, ok := nilTest(c)
+	if !ok || nilWhenTrue != v || !isErrorType(x.Type()) {
+		return nil
+	}
+	var cl *ssa.Call
+	switch t := x.(type) {
+	case *ssa.Call:
+		cl = t
+	case *ssa.Extract:
+		cl, _ = t.Tuple.(*ssa.Call)
+	}
+	if cl == nil {
+		return nil
+	}
+	callee := cl.Call.StaticCallee()
+	if callee == nil || len(callee.Blocks) == 0 || callee.Pkg == nil || cl.Parent() == nil || callee.Pkg != topFunc(cl.Parent()).Pkg {
+		return nil
+	}
+	return cl
+}
+
+// dominatedByCmpDepth also looks into validation helpers: when b is only
+// reachable after `err := helper(args…)` returned nil, a comparison that
+// dominates every nil return of the helper holds in b as well, with the
+// helper's parameters replaced by the arguments of the call.
+func dominatedByCmpDepth(b *ssa.BasicBlock, pred func(op token.Token, x, y ssa.Value) bool, depth int) bool {
 	found := false
 	edgeFacts(b, func(cond ssa.Value, val bool) bool {
-		c, v := cond, val
-		for {
-			if u, ok := c.(*ssa.UnOp); ok && u.Op == token.NOT {
-				c, v = u.X, !v
-				continue
+		if depth < 2 {
+			if cl := validationHelperOf(cond, val); cl != nil {
+				callee := cl.Call.StaticCallee()
+				subst := func(v ssa.Value) ssa.Value {
+					w := stripConv(v)
+					for i, p := range callee.Params {
+						if w == ssa.Value(p) && i < len(cl.Call.Args) {
+							return cl.Call.Args[i]
+						}
+					}
+					return v
+				}
+				ei := errIndex(callee)
+				nNil, all := 0, true
+				for _, r := range returnsOf(callee) {
+					if ei < 0 || !isNilConst(returnedValue(r, ei)) {
+						continue
+					}
+					nNil++
+					if !dominatedByCmpDepth(r.Block(), func(op token.Token, x, y ssa.Value) bool { return pred(op, subst(x), subst(y)) }, depth+1) {
+						all = false
+					}
+				}
+				if nNil > 0 && all {
+					found = true
+					return false
+				}
 			}
-			break
 		}
-		bo, ok := c.(*ssa.BinOp)
+		op, x, y, ok := normCmp(cond, val)
 		if !ok {
 			return true
 		}
-		op := bo.Op
-		if !v {
-			switch op {
-			case token.LSS:
-				op = token.GEQ
-			case token.LEQ:
-				op = token.GTR
-			case token.GTR:
-				op = token.LEQ
-			case token.GEQ:
-				op = token.LSS
-			case token.EQL:
-				op = token.NEQ
-			case token.NEQ:
-				op = token.EQL
-			default:
-				return true
-			}
-		}
-		if pred(op, bo.X, bo.Y) {
+		if pred(op, x, y) {
 			found = true
 			return false
 		}
@@ -774,7 +816,7 @@ func dominatedByCmp(b *ssa.BasicBlock, pred func(op token.Token, x, y ssa.Value)
 		default:
 			mop = op
 		}
-		if pred(mop, bo.Y, bo.X) {
+		if pred(mop, y, x) {
 			found = true
 			return false
 		}
@@ -994,4 +1036,35 @@ func returnedValue(r *ssa.Return, i int) ssa.Value {
 		return last
 	}
 	return v
+}
+
+// dominatedByUpperBound: on entry to b the branch conditions imply
+// subject <= k (any comparison form and polarity: x < c, !(x >= c), c > x, x == c …).
+func dominatedByUpperBound(b *ssa.BasicBlock, subject func(ssa.Value) bool, k int64) bool {
+	found := false
+	edgeFacts(b, func(cond ssa.Value, val bool) bool {
+		if op, x, y, ok := normCmp(cond, val); ok {
+			if ub, ok := cmpUpperBound(op, x, y, subject); ok && ub <= k {
+				found = true
+				return false
+			}
+		}
+		return true
+	})
+	return found
+}
+
+// dominatedByLowerBound: subject >= k.
+func dominatedByLowerBound(b *ssa.BasicBlock, subject func(ssa.Value) bool, k int64) bool {
+	found := false
+	edgeFacts(b, func(cond ssa.Value, val bool) bool {
+		if op, x, y, ok := normCmp(cond, val); ok {
+			if lb, ok := cmpLowerBound(op, x, y, subject); ok && lb >= k {
+				found = true
+				return false
+			}
+		}
+		return true
+	})
+	return found
 }
